@@ -1,6 +1,8 @@
 import Lean.Data.Json
 import DcmVerif.Model.Ext
 import DcmVerif.Model.Valid
+import DcmVerif.Model.Orient
+import DcmVerif.Model.Time
 /-! `dcmdriver`: one JSON object per input line, one JSON answer per line.  Values of metadata
 are opaque strings (the harness sends the canonical JSON text of each value), so equality in the
 model is string equality. -/
@@ -68,6 +70,21 @@ def extJson (e : DExt K V) : Json :=
     ("ents", Json.arr (e.ents.map fun x =>
       Json.arr #[Json.str x.1, Json.str (clsName x.2.1),
                  Json.arr (x.2.2.map Json.str).toArray]).toArray)]
+
+def getOrnt (j : Json) : Except String (List (Nat × Bool)) := do
+  (← j.getArr?).toList.mapM fun e => do
+    let a ← e.getArr?
+    match a.toList with
+    | [x, b] => pure (← x.getNat?, ← b.getBool?)
+    | _ => .error "bad ornt entry"
+
+def orntJson (o : List (Nat × Bool)) : Json :=
+  Json.arr (o.map fun p => Json.arr #[(p.1 : Json), Json.bool p.2]).toArray
+
+def pvalJson : Phx.PVal → Json
+  | .int n => Json.mkObj [("int", Json.str (toString n))]
+  | .floatLex l => Json.mkObj [("float", Json.str (String.ofList l))]
+  | .str l => Json.mkObj [("str", Json.str (String.ofList l))]
 
 def resJson {β : Type} (f : β → Json) : Res β → Json
   | .ok b => Json.mkObj [("ok", f b)]
@@ -163,6 +180,63 @@ def handle (j : Json) : Except String Json := do
     let c : CV.Content := { topKeys := top, version := version, affineRows := arows, sliceDim := sd,
                             shape := shape, dict := dictF }
     pure (Json.bool (CV.checkValid c))
+  | "check_code" =>
+    let sv ← (← j.getObjVal? "s").getStr?
+    pure (Json.bool (Orient.checkCode sv.toList))
+  | "axcodes2ornt" =>
+    let sv ← (← j.getObjVal? "s").getStr?
+    pure (match Orient.axcodes2ornt sv.toList with
+      | none => Json.null
+      | some o => orntJson o)
+  | "ornt_transform" =>
+    let st ← getOrnt (← j.getObjVal? "start")
+    let en ← getOrnt (← j.getObjVal? "end")
+    pure (match Orient.orntTransform st en with
+      | none => Json.null
+      | some t => orntJson t)
+  | "reorder" =>
+    let nd ← (← j.getObjVal? "nd").getNat?
+    let affOk ← (← j.getObjVal? "aff_ok").getBool?
+    let cols ← (← (← j.getObjVal? "cols").getArr?).toList.mapM fun c => do
+      let a ← c.getArr?
+      match a.toList with
+      | [ax, pos, z] => pure ({ axis := ← ax.getNat?, pos := ← pos.getBool?, zoom := ← z.getNat? } : Orient.Col)
+      | _ => .error "bad col"
+    let code ← (← j.getObjVal? "code").getStr?
+    let shape ← getNatList (← j.getObjVal? "shape")
+    pure (match Orient.reorder nd affOk cols code.toList with
+      | .valueError => Json.str "ValueError"
+      | .ok t => Json.mkObj [("t", orntJson t),
+          ("ornt", orntJson (Orient.ioOrientation (Orient.mulCols cols t))),
+          ("shape", Json.arr ((Orient.outShape t shape).map fun (n : Nat) => (n : Json)).toArray),
+          ("T", Json.arr ((Orient.invOrntAff t shape).map fun row =>
+              Json.arr (row.map fun (x : Int) => (x : Json)).toArray).toArray)])
+  | "src_index" =>
+    let t ← getOrnt (← j.getObjVal? "t")
+    let shape ← getNatList (← j.getObjVal? "shape")
+    let out ← getNatList (← j.getObjVal? "out")
+    pure (Json.arr ((Orient.srcIndex t shape out).map fun (n : Nat) => (n : Json)).toArray)
+  | "phx_line" =>
+    let line ← (← j.getObjVal? "line").getStr?
+    let delim ← (← j.getObjVal? "delim").getStr?
+    pure (match Phx.parseLine delim.toList line.toList with
+      | .none => Json.null
+      | .parseError => Json.str "PARSE-ERROR"
+      | .pair k v => Json.arr #[Json.str (String.ofList k), pvalJson v])
+  | "phx_prot" =>
+    let key ← (← j.getObjVal? "key").getStr?
+    let text ← (← j.getObjVal? "text").getStr?
+    pure (match Phx.parseProt key.toList text.toList with
+      | .parseError => Json.str "PARSE-ERROR"
+      | .valueError => Json.str "ValueError"
+      | .ok d => Json.arr (d.map fun p => Json.arr #[Json.str (String.ofList p.1), pvalJson p.2]).toArray)
+  | "tm" =>
+    let sv ← (← j.getObjVal? "s").getStr?
+    pure (match Tm.toSec sv.toList with
+      | .valueError => Json.str "ValueError"
+      | .ok secs none => Json.mkObj [("secs", Json.str (toString secs))]
+      | .ok secs (some d) => Json.mkObj [("secs", Json.str (toString secs)), ("neg", Json.bool d.neg),
+          ("mant", Json.str (toString d.mant)), ("scale", Json.str (toString d.scale))])
   | _ => .error s!"unknown op {op}"
 
 partial def loop (hin hout : IO.FS.Stream) : IO Unit := do
